@@ -1,3 +1,12 @@
-From CL Require Import Lift.
-Theorem tmp : True. Proof. exact I. Qed.
-Print Assumptions tmp.
+(* C15 — hit/miss statistics are exact (sequential half). *)
+From CL Require Import PfC15.
+Theorem C15_each_lookup_counts_once :
+  forall c h, check_trace c15_step c (trace c 0 init h) = true.
+Proof. exact c15_holds. Qed.
+Print Assumptions C15_each_lookup_counts_once.
+Theorem C15_total :
+  forall c h s now, run c 0 init h = (s, now) ->
+    st_hits s + st_misses s =
+    N.of_nat (length (filter (fun e => match ev_op e with Get _ => true | _ => false end) h)).
+Proof. exact c15_total. Qed.
+Print Assumptions C15_total.
